@@ -46,6 +46,54 @@ def _(c):
     out3 = c.call(chmac.HMAC.__call__, m, msg)
     c.ensure('repeatable', val.eq(out3, out2))
 
+# ---------------------------------------------------------------- every message (class L)
+# The message is an ABSTRACT byte string (pyvc.sbytes.SBytesT): arbitrary length, arbitrary content.  HMAC may only prefix it
+# and hand it to the hash; the hash of "known prefix || message" is an uninterpreted function of the prefix bytes and the
+# message token.  All (block, digest) size pairs of the library's hashes x every key length 0..3 blocks are enumerated, which
+# is the whole range the property quantifies over.
+LIB_SIZES = [(64, 16), (64, 20), (64, 28), (64, 32), (128, 28), (128, 32), (128, 48), (128, 64)]
+def _t_cases(tier):
+    out = []
+    for B, n in LIB_SIZES + [(8, 4)]:
+        step = 1 if tier != 'quick' or B == 8 else None
+        klens = range(0, 3 * B + 1) if step else sorted({0, 1, n - 1, n, n + 1, B - 1, B, B + 1, 2 * B, 3 * B})
+        # one obligation per group of key lengths (the groups partition 0..3B)
+        ks = list(klens)
+        for i in range(0, len(ks), 16): out.append({'B': B, 'n': n, 'klens': ','.join(str(k) for k in ks[i:i + 16])})
+    return out
+@obligation(P, 'crysp.hmac.HMAC/every-message', cls='L', opaque=['absH_*'], cases=_t_cases, funcs=['crysp.hmac.HMAC.__init__', 'crysp.hmac.HMAC.setkey', 'crysp.hmac.HMAC.__call__'],
+            note='message of arbitrary length and content (abstract tail), key contents symbolic, hash an arbitrary function with the (block, digest) sizes of each library hash; '
+                 'quick tier: key lengths at the block/digest boundaries, thorough tier: every key length 0..3 blocks')
+def _(c):
+    from pyvc.sbytes import SBytesT
+    B, n = c.case('B'), c.case('n')
+    h = AbstractHash(B, n)
+    msg = c.tail('M')
+    for kl in [int(x) for x in c.case('klens').split(',')]:
+        key = c.bytes('K%d' % kl, kl)
+        m = c.call(chmac.HMAC, h, key)
+        out = c.call(chmac.HMAC.__call__, m, msg)
+        k = list(key)
+        if len(k) > B: k = h.spec(k)
+        k = k + [0] * (B - len(k))
+        inner = h.spec(val_bytes([x ^ 0x36 for x in k]) + msg)
+        c.ensure('mac klen=%d' % kl, val.eq(out, h.spec([x ^ 0x5c for x in k] + inner)))
+        c.ensure('length klen=%d' % kl, len(out) == n)
+        # a second key on the same object replaces the first completely
+        key2 = c.bytes('R%d' % kl, (kl * 7 + 3) % (3 * B + 1))
+        c.call(chmac.HMAC.setkey, m, key2)
+        out2 = c.call(chmac.HMAC.__call__, m, msg)
+        k2 = list(key2)
+        if len(k2) > B: k2 = h.spec(k2)
+        k2 = k2 + [0] * (B - len(k2))
+        c.ensure('rekeyed klen=%d' % kl, val.eq(out2, h.spec([x ^ 0x5c for x in k2] + h.spec(val_bytes([x ^ 0x36 for x in k2]) + msg))))
+
+def val_bytes(items):
+    if any(getattr(x, '_sym', False) for x in items):
+        from pyvc.sbytes import from_items
+        return from_items(items)
+    return bytes(items)
+
 @obligation(P, 'crysp.hmac.HMAC/library-hashes', cls='B', native=True, bound='library hashes with a stdlib counterpart (MD5, SHA-1, SHA-224/256/384/512, SHA-512/224, SHA-512/256); key lengths 0..3 blocks at boundaries; fixed messages',
             cases={'alg': ['md5', 'sha1', 'sha224', 'sha256', 'sha384', 'sha512', 'sha512_224', 'sha512_256', 'md4', 'blake256', 'blake512']}, funcs=['crysp.hmac.HMAC.__call__', 'crysp.hmac.HMAC.setkey'])
 def _(c):
